@@ -219,6 +219,16 @@ def gen_history(hid, rng, prop, tier):
                 op_set(h, rng, k)
             else:
                 op_del(h, rng, k)
+    if prop == "C13" and h.vals and rng.random() < 0.25:
+        # a stored value refers to an iterator over its own tree: only the cyclic garbage
+        # collector can release the tree once the caller has dropped it
+        v = h.newval(rng)
+        k = base + rng.randrange(U)
+        h.add(f"set {k}.0 v{v}")
+        h.live.add(k)
+        h.add(f"cyc v{v}")
+        if rng.random() < 0.5:
+            op_set(h, rng, base + rng.randrange(U))
     # final reads so that every history checks the contents at least once
     h.add("len")
     h.add("items")
